@@ -924,7 +924,7 @@ def run(ctx):
         "conversion chains are bounded in length (3 quick / 4 thorough); "
         "every step converts to another format")
     specs = zoo_specs(ctx.tier)
-    cap = ctx.budget or (85 if ctx.quick else 840)
+    cap = ctx.budget or (340 if ctx.quick else 1680)
     if ctx.wants('roundtrip'):
         cases = []
         for spec in specs:
